@@ -31,6 +31,7 @@ import GraphiqModel.Proofs.SolverCompleteFlag
 import GraphiqModel.Proofs.SolverCompleteFinal
 import GraphiqModel.Proofs.SolverCompleteValidator
 import GraphiqModel.Proofs.SolverCompleteResources
+import GraphiqModel.Proofs.SolverCompleteWires
 namespace Graphiq.C02
 open Graphiq Graphiq.PRow Graphiq.Tab Graphiq.STab
 
@@ -386,6 +387,27 @@ example : (graphSTab 4 sq4adj).heightFuncList = .ok [1, 2, 1, 0] ∧ Solver.desc
   constructor
   · decide +kernel
   · decide
+
+/-- **emission structure** (the constraint of C04 for this solver): in the returned circuit the first operation in time order on every
+    photon wire is the emission CNOT from one of the circuit's emitters — no gate, no measure-and-reset touches a photon before it is
+    emitted (`Solver.firstOn np p c` = first operation of the time-ordered list `c` that touches global qubit `p`) -/
+theorem emission_first_stabilizer (hinv : InverseCircuitComplete) (target : STab) (hg : target.Good) (hi : target.LinIndep)
+    (hn : 0 < target.n) (hnp : ∀ p, p < target.n → target.NotProd p) :
+    ∃ s, Solver.solve target = .ok s ∧
+      ∀ p, p < target.n → ∃ e, e < s.ne ∧ Solver.firstOn target.n p s.circ = some (.emit e p) :=
+  Solver.solve_emission_first hinv target hg hi hn hnp
+
+theorem emission_first (hinv : InverseCircuitComplete) (np : Nat) (adj : Nat → Nat → Bool) (hnp : 0 < np)
+    (hsym : ∀ i j, adj i j = adj j i) (hirr : ∀ i, adj i i = false) (hiso : ∀ i, i < np → ∃ j, j < np ∧ adj i j = true) :
+    ∃ s, Solver.solve (graphSTab np adj) = .ok s ∧
+      ∀ p, p < np → ∃ e, e < s.ne ∧ Solver.firstOn np p s.circ = some (.emit e p) :=
+  emission_first_stabilizer hinv (graphSTab np adj) (Solver.graphSTab_good np adj hsym) (graph_indep np adj) hnp
+    (fun p hp => Solver.graph_notProd np adj hirr p hp (hiso p hp))
+
+/-- on the linear cluster the model's circuit indeed starts every photon wire with its emission (kernel evaluation) -/
+example : (match Solver.solve (graphSTab 3 lin3adj) with
+    | .ok s => (List.range 3).all fun p => match Solver.firstOn 3 p s.circ with | some (.emit _ q) => q == p | _ => false
+    | .error _ => false) = true := by decide +kernel
 
 /-! ### The excluded targets: the hypotheses of `solver_complete` are sharp (finding D3 as a theorem about the model) -/
 
